@@ -901,6 +901,35 @@ def gen_access(repo):
     for c in range(2):
         G.define('gen_mmkernel_mask%d_accesses' % c, '(W M K N R i j ii k n : nat)', 'list (nat * nat)', acc(MK, r'void\s+interior_block_matmul_mask_impl\s*\(', c, ['a', 'b', 'c'], envk),
                  MK + ': interior_block_matmul_mask_impl (%s): a / b / c accesses' % ('int mask array' if c == 0 else 'AVX-512 mask register'))
+    tkhdr = r'void\s+interior_block_tmatmul_impl\s*\('
+    for c in range(5):
+        G.define('gen_tmkernel%d_accesses' % (c + 1), '(W M K N R i j ii k n : nat)', 'list (nat * nat)', acc(TM, tkhdr, c, ['a', 'b', 'c'], envk),
+                 TM + ': interior_block_tmatmul_impl<numSIMDCols=%d>: index of every a / b / c access' % (c + 1))
+    G.define('gen_tmkernel_scalar_accesses', '(W M K N R i j ii k n : nat)', 'list (nat * nat)', acc(TM, r'void\s+interior_block_tmatmul_scalar_impl\s*\(', 0, ['a', 'b', 'c'], envk),
+             TM + ': interior_block_tmatmul_scalar_impl: a / b / c accesses')
+    for c in range(2):
+        G.define('gen_tmkernel_mask%d_accesses' % c, '(W M K N R i j ii k n : nat)', 'list (nat * nat)', acc(TM, r'void\s+interior_block_tmatmul_mask_impl\s*\(', c, ['a', 'b', 'c'], envk),
+                 TM + ': interior_block_tmatmul_mask_impl (%s): a / b / c accesses' % ('int mask array' if c == 0 else 'AVX-512 mask register'))
+    def krange(header, nth):
+        def fn():
+            body, _ = find_scope(G.src(TM), header, nth)
+            out = []
+            for nm in ('find_kfirst', 'find_klast'):
+                cs = calls_of(body, nm)
+                if len(cs) != 1: raise XErr('%d calls of %s' % (len(cs), nm))
+                targs = cs[0][1]
+                if targs[:2] != ['size_t', 'K'] or targs[4:] != ['LhsType', 'RhsType']: raise XErr('k-range call: %s' % targs)
+                m = re.match(r'\s*<[^>]*>\s*\(\s*i\s*,\s*j\s*\)', body[cs[0][2] + len(nm):])
+                if not m: raise XErr('k-range not computed at the block origin (i,j)')
+                out += [translate(x, NAT, {'unrollOuterloop': ('R', 'n'), 'numSIMDRows': ('nr', 'n'), 'numSIMDCols': ('nc', 'n')}, vat)[0] for x in targs[2:4]]
+            return '[' + '; '.join(out) + ']'
+        return fn
+    for c in range(5):
+        G.define('gen_tmkernel%d_krange' % (c + 1), '(W R nr nc : nat)', 'list nat', krange(tkhdr, c),
+                 TM + ': interior_block_tmatmul_impl<numSIMDCols=%d>: block extents given to find_kfirst / find_klast at the origin (i,j)' % (c + 1))
+    G.define('gen_tmkernel_scalar_krange', '(W R nr nc : nat)', 'list nat', krange(r'void\s+interior_block_tmatmul_scalar_impl\s*\(', 0), TM + ': scalar kernel: block extents of the k-range')
+    for c in range(2):
+        G.define('gen_tmkernel_mask%d_krange' % c, '(W R nr nc : nat)', 'list nat', krange(r'void\s+interior_block_tmatmul_mask_impl\s*\(', c), TM + ': masked kernel %d: block extents of the k-range' % c)
     envd = ids(['M', 'K', 'N', 'i', 'j', 'k', 'n'])
     envd.update({'FASTOR_MATMUL_OUTER_BLOCK_SIZE': ('ob', 'n'), 'FASTOR_MATMUL_INNER_BLOCK_SIZE': ('ib', 'n')})
     G.define('gen_mmbase_inline_accesses', '(W M K N i j k n : nat)', 'list (nat * nat)',
